@@ -237,6 +237,8 @@ def run_textmut(case):
         mw = m.to_wire()
     except Exception as e:
         raise Violation("totality", f"{tname}: from_text accepted {text!r} but to_wire() raised {type(e).__name__}: {e}", "to_wire:" + tname + ":" + type(e).__name__)
+    if len(mw) > 65535:
+        raise Violation("totality", f"{tname}: from_text accepted {text!r}, whose RDATA is {len(mw)} octets: it cannot be encoded in a record (RDLENGTH is 16 bits)", "rdata-too-long:" + tname)
     try:
         back = dns.rdata.from_wire(rdclass, rdtype, mw, 0, len(mw))
     except dns.exception.DNSException as e:
